@@ -160,6 +160,8 @@ def run(ctx):
                                 g["count"] += 1
                                 order = (k, np_, int(d["idx"]), int(d["rank"]), int(d["step"]), d["var"])
                                 case = {"k": k, "np": np_, "mode": mode, "idx": int(d["idx"]), "line": list(ls[int(d["idx"])]) if int(d["idx"]) >= 0 else None}
+                                if int(d["idx"]) < 0:   # seen by the check of the loader's initial values: depends on what the
+                                    case["range"] = [job[5], job[5] + 1]   # other ranks already did in the first program of the shard
                                 if g["first"] is None or order < g["first"][0]:
                                     g["first"] = (order, d, case)
                     if mode == "no":
@@ -251,8 +253,6 @@ def _rerun(tmp, binary, case, want):
     if case["idx"] >= 0 and list(ls[case["idx"]]) != list(case["line"]):
         return False, "program list changed: line %d is %s" % (case["idx"], ls[case["idx"]])
     lo, hi = (case["idx"], case["idx"] + 1) if not case.get("range") else case["range"]
-    if case["idx"] < 0:
-        lo, hi = 0, 0
     rc, out, err = mpix.smpirun(tmp, binary, case["np"], [path, lo, hi], cfg=["smpi/privatization:" + case["mode"]] + CFG,
                                 timeout=120, nhosts=8)
     vs = [d for t, d in mpix.records(out) if t == "V"]
